@@ -1,0 +1,17 @@
+//go:build verif
+
+package hsmsss
+
+// Verification hooks (build tag `verif` only): export the two pure linktest decision functions so the
+// verification harness can run them side by side with their formal model. Add-only; no production
+// behaviour changes and nothing here is compiled without the tag.
+
+// VerifLinktestFailureStep exposes linktestFailureStep.
+func VerifLinktestFailureStep(suppress bool, recvNow, sentAt, inflight int64, fails int, recvAtLastFail int64) (int, int64, bool) {
+	return linktestFailureStep(suppress, recvNow, sentAt, inflight, fails, recvAtLastFail)
+}
+
+// VerifLinktestDisconnectRecheck exposes linktestDisconnectRecheck.
+func VerifLinktestDisconnectRecheck(suppress bool, inflight, recvNow, sentAt int64) bool {
+	return linktestDisconnectRecheck(suppress, inflight, recvNow, sentAt)
+}
